@@ -261,7 +261,7 @@ func runC10(c *fw.Ctx) {
 	clocks := Clocks(ld.Archs, false, []string{"mid"})
 	now := clocks[1]
 	rmax, r0 := ld.Archs[1].Ret(), ld.Archs[0].Ret()
-	wins := [][2]int64{{0, 0}, {now - 3, now - 1}, {now - r0 - 2, 0}, {now - rmax - 3, now - rmax + 2}}
+	wins := [][2]int64{{0, 0}, {now - 3, now - 1}, {now - r0 - 2, 0}, {now - rmax - 3, now - rmax + 2}, {now - 3, now - 2}}
 	c.R.Bounds["contents"] = "L4: 3 files x 2^5 hole patterns each (all 32768 combinations), 2 files x 3^5 each (all 59049), 1 file 3^5; a second single-file item in every world"
 	two := allCodes(nslots, 2)
 	three := allCodes(nslots, 3)
